@@ -53,6 +53,13 @@ func (x *Exec) heapArr(st *State, key string, s *Sort) *Term {
 		x.heapReads = append(x.heapReads, heapRead{st, key})
 	}
 	if t, ok := st.heap[key]; ok {
+		if t.Op != "const" && nodeCountAtLeast(t, 400) {
+			// keep every heap definition small: name large terms (their printed form is a tree)
+			c := x.ctx.Fresh("h_"+shortKey(key), t.Sort)
+			x.facts = append(x.facts, Eq(c, t))
+			st.heap[key] = c
+			return c
+		}
 		return t
 	}
 	if _, known := x.heapSort[key]; !known {
@@ -522,4 +529,23 @@ func (x *Exec) heapTypeFacts(key string, arr *Term) {
 	if srt.Kind == SInt && len(idx) > 0 {
 		x.facts = append(x.facts, Forall(idx, Ge(cur, IntLit(0)), []*Term{cur}))
 	}
+}
+
+// nodeCountAtLeast reports whether the tree size of t reaches n (bounded traversal).
+func nodeCountAtLeast(t *Term, n int) bool {
+	cnt := 0
+	var walk func(t *Term) bool
+	walk = func(t *Term) bool {
+		cnt++
+		if cnt >= n {
+			return true
+		}
+		for _, a := range t.Args {
+			if walk(a) {
+				return true
+			}
+		}
+		return false
+	}
+	return walk(t)
 }
